@@ -22,7 +22,8 @@ from ..ref import e_strace as S
 
 ID = "C25"
 LEVEL = "exploration"
-RULE = ("case families: nonterm (15 looping/recursing shapes x 20 loop bodies x phase shift x {top, function, test} x "
+RULE = ("case families: sequel (10 layouts in which an earlier test / toplevel call / shared function exhausts the "
+        "budget and a non-terminating unit follows in the same process), nonterm (15 looping/recursing shapes x 20 loop bodies x phase shift x {top, function, test} x "
         "{playground-run, sandboxed-test}), depth (bounded recursion around the 1000-frame limit), builtin (every "
         "built-in stub with canonical arguments, stdin never written), nest (values nested 10^2..4*10^4 deep built in a "
         "loop from 9 constructors, then one of 18 operations), long (single long ticks: string doubling, big reprs, huge "
@@ -71,6 +72,15 @@ def gen_cases(tier, seed):
         if name.endswith(".gdn"):
             for mode in ("playground", "sbtest"):
                 yield {"t": "corpus", "file": name, "mode": mode, "where": "file"}
+    # core 0: the budget is exhausted by an EARLIER unit (test, toplevel expression, shared function) and a
+    # non-terminating unit follows in the same process
+    for li, layout in enumerate(SEQUEL_LAYOUTS):
+        n = len(G.NONTERM_SHAPES)
+        yield {"t": "sequel", "layout": layout, "mode": "playground" if layout.startswith("P") else "sbtest",
+               "where": "file", "body": (li + seed) % len(G.LOOP_BODIES),
+               # the first unit always runs into the TICK limit (a loop), the others rotate over all shapes
+               "shapes": [TICK_SHAPES[(li + seed) % len(TICK_SHAPES)]] +
+                         [G.NONTERM_SHAPES[(li * 4 + j * 5 + seed) % n] for j in range(1, 4)]}
     # core 1: every non-terminating shape in both modes (placement and body rotate with the seed)
     for si, shape in enumerate(G.NONTERM_SHAPES):
         for mi, mode in enumerate(("playground", "sbtest")):
@@ -116,7 +126,13 @@ def gen_cases(tier, seed):
         r = rng.random()
         mode = rng.choice(("playground", "sbtest"))
         where = rng.choice(wheres)
-        if r < 0.45:
+        if r < 0.12:
+            layout = rng.choice(SEQUEL_LAYOUTS)
+            yield {"t": "sequel", "layout": layout, "mode": "playground" if layout.startswith("P") else "sbtest",
+                   "where": "file", "shapes": [rng.choice(TICK_SHAPES if rng.random() < 0.7 else G.NONTERM_SHAPES)] +
+                                              [rng.choice(G.NONTERM_SHAPES) for _ in range(3)],
+                   "body": rng.randrange(len(G.LOOP_BODIES))}
+        elif r < 0.45:
             yield {"t": "nonterm", "shape": rng.choice(G.NONTERM_SHAPES), "body": rng.randrange(len(G.LOOP_BODIES)),
                    "phase": rng.randrange(0, 40), "mode": mode, "where": where,
                    "extra_tests": rng.choice([0, 0, 1, 3]) if mode == "sbtest" else 0,
@@ -206,8 +222,86 @@ def nest_program(c):
     return defs + body + "println(\"VB\")\n" + G.NEST_OPS[c["op"]] + "\n"
 
 
+TICK_SHAPES = ["while-true", "while-counter", "while-nested", "while-break-inner", "for-in-while"]
+SEQUEL_LAYOUTS = ["P-spin-top", "P-spin-ok-top", "P-ok-spin-top", "P-spin-spin-top", "P-shared-fun", "P-spin-rec-top",
+                  "S-spins", "S-spin-ok-spin", "S-shared-fun", "S-four"]
+_RENAME = __import__("re").compile(r"\b(vf|vg|vh|vc|vloop|spin|VS|vstep|vnext|vmain)\b")
+
+
+def _unit(shape, body, i):
+    """(definitions, statements) of a non-terminating unit whose top-level names carry the suffix i"""
+    src = G.nonterm_program(shape, G.LOOP_BODIES[body], i % 3)
+    src = _RENAME.sub(lambda m: "%s_%d" % (m.group(1), i), src)
+    return G.split_defs(src)
+
+
+def sequel_program(c):
+    """Several units evaluated one after another in ONE sandboxed process; an earlier one uses up the budget.
+    -> (source, names of the tests that cannot terminate, number of tests)"""
+    sh, body, lay = c["shapes"], c["body"], c["layout"]
+    ok = "test vs_ok%d {\n  assert([1, 2].map(fun(x: Int) { x + 1 }) == [2, 3])\n}\n"
+    defs, tests, top, spins = [], [], "", []
+
+    def spin_test(i):
+        d, b = _unit(sh[i % len(sh)], body, i)
+        defs.append(d)
+        tests.append("test vs_spin%d {\n%s\n}\n" % (i, G.indent(b)))
+        spins.append("vs_spin%d" % i)
+
+    def top_unit(i, shape=None):
+        d, b = _unit(shape or sh[i % len(sh)], body, i)
+        defs.append(d)
+        return b
+
+    if lay == "P-spin-top":
+        spin_test(0)
+        top = top_unit(1)
+    elif lay == "P-spin-ok-top":
+        spin_test(0)
+        tests.append(ok % 0)
+        top = top_unit(1)
+    elif lay == "P-ok-spin-top":
+        tests.append(ok % 0)
+        spin_test(0)
+        top = top_unit(1)
+    elif lay == "P-spin-spin-top":
+        spin_test(0)
+        spin_test(1)
+        top = top_unit(2)
+    elif lay == "P-spin-rec-top":
+        spin_test(0)
+        top = top_unit(1, "rec-nontail")
+    elif lay in ("P-shared-fun", "S-shared-fun"):
+        d, b = _unit(sh[0], body, 0)
+        defs.append(d + "fun vs_shared() {\n%s\n}\n" % G.indent(b))
+        for i in range(3):
+            tests.append("test vs_spin%d {\n  vs_shared()\n}\n" % i)
+            spins.append("vs_spin%d" % i)
+            if i == 0 and lay == "S-shared-fun":
+                tests.append(ok % 0)
+        if lay == "P-shared-fun":
+            top = "let vs_a = 1 + 1\nvs_shared()\nvs_shared()\n"
+    elif lay == "S-spins":
+        spin_test(0)
+        spin_test(1)
+    elif lay == "S-spin-ok-spin":
+        spin_test(0)
+        tests.append(ok % 0)
+        spin_test(1)
+        tests.append(ok % 1)
+    elif lay == "S-four":
+        for i in range(4):
+            spin_test(i)
+    else:
+        raise ValueError(lay)
+    return "".join(defs) + "".join(tests) + top, spins, len(tests)
+
+
 def program(c, w):
     """-> (source, name of the test holding the body or None, number of tests)"""
+    if c["t"] == "sequel":
+        src, spins, ntests = sequel_program(c)
+        return src, None, ntests
     if c["t"] == "nonterm":
         src = G.nonterm_program(c["shape"], G.LOOP_BODIES[c["body"]], c["phase"])
     elif c["t"] == "depth":
@@ -321,6 +415,16 @@ def observe(c, t, tname):
     d = docs[-1]
     if d["description"] == "Parse error":
         return {"kind": "parse-error", "printed": printed, "complete": True}
+    if c["t"] == "sequel":
+        _, spins, _ = sequel_program(c)
+        descs = {n: (d["tests"].get(n) or {}).get("description") for n in spins}
+        bad = [(n, x) for n, x in sorted(descs.items()) if x != "exceeded resource limit"]
+        if not bad:
+            return {"kind": "limit", "text": d["description"][:200], "printed": printed, "complete": True}
+        n, x = bad[0]
+        kind = "no-test" if x is None else "interrupted" if x == "interrupted" else "value" if x == "passed" else "error"
+        return {"kind": kind, "text": "%s: %s" % (n, x), "printed": printed, "complete": True,
+                "summary": d["description"]}
     desc = (d["tests"].get(tname or "", {}) or {}).get("description")
     if desc is None:
         return {"kind": "no-test", "text": d["description"], "printed": printed, "complete": True}
@@ -343,6 +447,8 @@ def size_class(c):
 def what(c):
     if c["t"] == "nonterm":
         return "%s body%d" % (c["shape"], c["body"])
+    if c["t"] == "sequel":
+        return "%s %s" % (c["layout"], "+".join(x.split("-")[0] for x in c["shapes"][:3]))
     if c["t"] == "nest":
         return "%s %s" % (c["ctor"], c["op"])
     if c["t"] == "builtin":
@@ -402,6 +508,11 @@ def judge(c, t, tname, injected, src):
         ok = k in ("limit-tick", "limit-stack", "limit", "test-failed")
         if not ok:
             return res("violated", k, "nonterminating-program-returned:%s:%s" % (k, c["mode"]))
+    elif c["t"] == "sequel":
+        # playground: the toplevel unit that follows the tests cannot terminate -> the run's final result must be
+        # a limit error; sandboxed-test: every looping test must be reported as over its resource limit
+        if k not in ("limit-tick", "limit-stack", "limit"):
+            return res("violated", k, "nonterminating-unit-after-exhausted-budget-returned:%s:%s" % (k, c["mode"]))
     elif c["t"] == "depth":
         lim = k in ("limit-stack", "limit", "test-failed")
         if c["d"] <= 900 and k != "value":
